@@ -540,7 +540,9 @@ Proof.
   destruct (add_prefixed 2 (s_master st)) as [m|] eqn:Am; [|discriminate].
   destruct (add_certs (s_certs st)) as [cl|] eqn:Ac; [|discriminate].
   destruct (add_prefixed 3 cl) as [cl'|] eqn:Acl; [|discriminate].
-  injection M as <-. unfold unmarshal12.
+  assert (Ept : pt = be_bytes 2 (s_vers st) ++ be_bytes 2 (s_suite st) ++ be_bytes 8 (s_created st) ++ m ++ cl')
+    by congruence.
+  subst pt. clear M. unfold unmarshal12.
   rewrite read_uint_be by exact Hv. rewrite read_uint_be by exact Hs. rewrite read_uint_be by exact Hc.
   rewrite (read_prefixed_add 2 (s_master st) m cl' Am).
   destruct (s_master st) as [|m0 mr] eqn:Em; [congruence|]. rewrite <- Em.
@@ -578,3 +580,33 @@ Section POSITIVE.
     apply existsb_eqb_In in Hcs. rewrite Hcs. cbn [negb]. rewrite Hsel, Hcerts, Hauth. reflexivity.
   Qed.
 End POSITIVE.
+
+(* ---------- instances for the executable HMAC-SHA-256 ---------- *)
+Theorem real_accept_implies_mac ctr keys t p old :
+  decrypt_ticket hmac_sha256 ctr keys t = Some (p, old) ->
+  64 <= length t /\
+  exists i k, In k keys /\ nth_error keys i = Some k /\ kname k = firstn 16 t /\
+              skipn (length t - 32) t = hmac_sha256 (khmac k) (firstn (length t - 32) t) /\
+              old = Nat.ltb 0 i.
+Proof. apply accept_implies_mac. Qed.
+
+(* non-vacuity, by computation: a toy keystream, the real HMAC *)
+Definition toy_ctr (k iv : bytes) (n : nat) : bytes := firstn n (k ++ iv ++ repeat 7%N n).
+Definition toy_key (b : N) : tkey :=
+  {| kname := repeat b 16; kaes := repeat (b + 1)%N 16; khmac := repeat (b + 2)%N 16; kcreated := 0 |}.
+
+Example seal_open_example :
+  let k1 := toy_key 10 in let k2 := toy_key 20 in
+  let state := [1;2;3;4;5;6;7;8;9]%N in
+  match encrypt_ticket hmac_sha256 toy_ctr [k1] (repeat 3%N 16) state with
+  | Some t =>
+      length t = 73 /\
+      decrypt_ticket hmac_sha256 toy_ctr [k1] t = Some (state, false) /\
+      decrypt_ticket hmac_sha256 toy_ctr [k2; k1] t = Some (state, true) /\
+      decrypt_ticket hmac_sha256 toy_ctr [k2] t = None /\
+      decrypt_ticket hmac_sha256 toy_ctr [k1] (xor_at t 40 1) = None /\
+      decrypt_ticket hmac_sha256 toy_ctr [k1] (xor_at t 72 128) = None /\
+      decrypt_ticket hmac_sha256 toy_ctr [k1] (firstn 72 t) = None
+  | None => False
+  end.
+Proof. vm_compute. repeat split; reflexivity. Qed.
